@@ -272,7 +272,7 @@ for _pid in ('C09', 'C10', 'C11'):
     if 'OtterVerif.Props.C10Refine' not in PROPS[_pid]['modules']:
         PROPS[_pid]['modules'].append('OtterVerif.Props.C10Refine')
 # automatic removals inside the refinement (evictNode + deleteNodeFromMap): truthful cause, justified-removal input of the spec
-for _pid in ('C01', 'C06', 'C07', 'C09', 'C13'):
+for _pid in ('C01', 'C06', 'C07', 'C09', 'C13', 'C20'):
     if 'OtterVerif.Props.C07Evict' not in PROPS[_pid]['modules']:
         PROPS[_pid]['modules'].append('OtterVerif.Props.C07Evict')
 # observers inside the refinement: GetEntry / GetEntryQuietly snapshots, iteration filter
